@@ -1,4 +1,5 @@
 import SSVerif.Model.Align
+import SSVerif.Model.AlignJson
 import Driver.Util
 /-! driver sub-command `c04`: reads the dumps written by `harness/h_c04` (MODEL block, then one REQ block per
 alignment request) and, per request,
@@ -6,9 +7,15 @@ alignment request) and, per request,
   from the first-pass segmentation, the dictionary tables and the dumped token stack, and prints the result in
   the format of the harness' flat dump (lines `A`, `W`, `P`, `S`, `SF`, `EF`);
 * evaluates the verified checker `alignOKB` on what the C code returned through the iterator API (`OK` line),
-  together with the side conditions of the theorems on the dumped data (`wf` = `wfTokens`, `noskip`). -/
+  together with the side conditions of the theorems on the dumped data (`wf` = `wfTokens`, `noskip`);
+* for every `J` line (what `decoder_result_json(d, start, level)` returned in the same request) parses the line with
+  the JSON recogniser of C14, reads the words > phones (> states) tree back (`JsonObs.obsOf`: frames recovered from
+  the rendered times in exact integer arithmetic, tolerance `tolNano`), and prints one `JS` line: whether the tree
+  lists exactly the entries of the flat iterators (name, start frame, duration) and satisfies the time clauses
+  (`JsonObs.timeOKB`: children partition parents, levels contiguous from frame 0 = time `start`). -/
 namespace Driver.C04
 open SSVerif.Align Driver
+open SSVerif.Align.JsonObs (Clock)
 
 def intsOf (ws : List String) : Option (List Int) := ws.mapM parseInt
 def natsOf (ws : List String) : Option (List Nat) := ws.mapM parseNat
@@ -92,6 +99,17 @@ structure Req where
   sen : Array (Array Int) := #[]
   mfinal : Option Tok := none
   mrows : Array (List Tok) := #[]
+  /-- renormalisation probe: entry score, senone scores and token stack of the hand-stepped pass started there -/
+  roff : Int := 0
+  rsen : Array (Array Int) := #[]
+  rfinal : Option Tok := none
+  rrows : Array (List Tok) := #[]
+  /-- `decoder_result_json` calls: level, position of the utterance + frame rate, returned bytes (`none` = NULL) -/
+  js : Array (Nat × Clock × Option (List UInt8)) := #[]
+  /-- names through `alignment_iter_name`, level by level -/
+  nW : Array String := #[]
+  nP : Array String := #[]
+  nS : Array String := #[]
   bad : List String := []
 
 def denseRow (n : Nat) (cells : List (Nat × Tok)) : List Tok :=
@@ -140,21 +158,22 @@ def Req.feed (r : Req) (ws : List String) : Req :=
   | "A" :: "ok" :: _ => { r with aOk := true }
   | "A" :: "null" :: _ => r
   | "REUSE" :: _ => r
-  | ["W", _idx, wid, _name, st, du, sc, _par, ch] =>
+  | ["W", _idx, wid, name, st, du, sc, _par, ch] =>
     match parseInt wid, parseInt st, parseInt du, parseInt sc, parseInt ch with
     | some wid, some st, some du, some sc, some ch =>
-      { r with cW := r.cW.push { start := st, duration := du, score := sc, parent := 0, child := ch.toNat, id := wid } }
+      { r with nW := r.nW.push name, cW := r.cW.push { start := st, duration := du, score := sc, parent := 0, child := ch.toNat, id := wid } }
     | _, _, _, _, _ => err "W"
-  | ["P", _idx, ci, _name, st, du, sc, par, ch, ssid, tm] =>
+  | ["P", _idx, ci, name, st, du, sc, par, ch, ssid, tm] =>
     match parseInt ci, parseInt st, parseInt du, parseInt sc, parseInt par, parseInt ch, parseInt ssid, parseInt tm with
     | some ci, some st, some du, some sc, some par, some ch, some ssid, some tm =>
-      { r with cP := r.cP.push { start := st, duration := du, score := sc, parent := par.toNat, child := ch.toNat,
+      { r with nP := r.nP.push name,
+               cP := r.cP.push { start := st, duration := du, score := sc, parent := par.toNat, child := ch.toNat,
                                  id := ci, ssid, tmatid := tm } }
     | _, _, _, _, _, _, _, _ => err "P"
-  | ["S", _idx, sen, _name, st, du, sc, par] =>
+  | ["S", _idx, sen, name, st, du, sc, par] =>
     match parseInt sen, parseInt st, parseInt du, parseInt sc, parseInt par with
     | some sen, some st, some du, some sc, some par =>
-      { r with cS := r.cS.push { start := st, duration := du, score := sc, parent := par.toNat, child := 0, id := sen } }
+      { r with nS := r.nS.push name, cS := r.cS.push { start := st, duration := du, score := sc, parent := par.toNat, child := 0, id := sen } }
     | _, _, _, _, _ => err "S"
   | "X" :: _i :: _ci :: _lc :: _rc :: _pos :: _ssid :: sens =>
     match intsOf sens with
@@ -180,6 +199,15 @@ def Req.feed (r : Req) (ws : List String) : Req :=
     match cells.mapM parseCell with
     | some cs => { r with rows := r.rows.push (denseRow r.nstates cs) }
     | none => err "TOK"
+  | ["J", lvl, _a, mi, ex, frate, payload] =>
+    match parseNat lvl, parseInt mi, parseInt ex, parseInt frate with
+    | some lvl, some mi, some ex, some frate =>
+      let c : Clock := if ex ≥ 0 then { sn := mi * 2 ^ ex.toNat, sd := 1, frate } else { sn := mi, sd := 2 ^ (-ex).toNat, frate }
+      if payload == "null" then { r with js := r.js.push (lvl, c, none) }
+      else match parseHex payload with
+        | some bs => { r with js := r.js.push (lvl, c, some bs) }
+        | none => err "J"
+    | _, _, _, _ => err "J"
   | "TPX" :: _i :: v =>
     match intsOf v with
     | some v => { r with tpx := r.tpx.push v.toArray }
@@ -188,6 +216,19 @@ def Req.feed (r : Req) (ws : List String) : Req :=
     match intsOf v with
     | some v => { r with sen := r.sen.push v.toArray }
     | none => err "SEN"
+  | ["ROFF", v] => match parseInt v with | some v => { r with roff := v } | none => err "ROFF"
+  | "RSEN" :: _f :: v =>
+    match intsOf v with
+    | some v => { r with rsen := r.rsen.push v.toArray }
+    | none => err "RSEN"
+  | ["RFINAL", id, sc, _nf] =>
+    match parseInt id, parseInt sc with
+    | some id, some sc => { r with rfinal := some ⟨id, sc⟩ }
+    | _, _ => err "RFINAL"
+  | "RTOK" :: _f :: cells =>
+    match cells.mapM parseCell with
+    | some cs => { r with rrows := r.rrows.push (denseRow r.nstates cs) }
+    | none => err "RTOK"
   | ["MFINAL", id, sc, _nf] =>
     match parseInt id, parseInt sc with
     | some id, some sc => { r with mfinal := some ⟨id, sc⟩ }
@@ -333,6 +374,42 @@ def process (m : Mdl) (r : Req) (out : IO.FS.Stream) : IO Unit := do
     let asDec := r.mrows == r.rows && mf == r.final
     let b (x : Bool) : String := if x then "1" else "0"
     out.putStrLn s!"STEP eq={b same} frames={rows.length} firstdiff={firstDiff} manual_eq_decoder={b asDec} ranges={b ranges} renorm={b renorm}"
+  -- renormalisation probe: the step model started from the same entry score on the senone scores that pass saw
+  match r.rfinal with
+  | none => pure ()
+  | some rf =>
+    if m.nEmit != 3 then out.putStrLn "RSTEP na=1" else
+    let tpTab := if r.tpx.isEmpty then m.tp else r.tpx
+    let tps : Array (Array Int) := r.cP.map fun e => if e.tmatid < 0 then #[] else tpTab.getD e.tmatid.toNat #[]
+    let (rows, fin, renorm) := SSVerif.Align.Step.runWith r.roff tps r.sf.toArray r.ef.toArray r.rsen.toList
+    let same := rows == r.rrows.toList && fin == rf
+    let firstDiff := ((List.range rows.length).find? fun f => rows[f]? != r.rrows.toList[f]?).getD rows.length
+    let b (x : Bool) : String := if x then "1" else "0"
+    out.putStrLn s!"RSTEP eq={b same} frames={rows.length} firstdiff={firstDiff} renorm={b renorm} off={r.roff} final={fin.score} alive={b (fin.score > SSVerif.Align.Step.worst)}"
+  -- the hierarchy as reported by decoder_result_json(d, start, level)
+  for (k, (lvl, c, payload)) in enum r.js.toList do
+    let b (x : Bool) : String := if x then "1" else "0"
+    match payload with
+    | none => out.putStrLn s!"JS {k} level={lvl} null=1"
+    | some bs =>
+      match SSVerif.Json.parseLine bs with
+      | none => out.putStrLn s!"JS {k} level={lvl} null=0 parse=0"
+      | some top =>
+        if lvl = 0 then out.putStrLn s!"JS {k} level={lvl} null=0 parse=1" else
+        let lvl2 := lvl ≥ 2
+        match JsonObs.obsOf c lvl2 top with
+        | none => out.putStrLn s!"JS {k} level={lvl} null=0 parse=1 clock={b (JsonObs.clockOK c)} tree=0"
+        | some o =>
+          let T : Int := match (r.fp.toList.filter (fun s => s.1 ≥ 0)).getLast? with | some (_, _, ef) => ef + 1 | none => 0
+          let flatW := o.tree.map (·.e)
+          let flatP := (o.tree.flatMap (·.phones)).map (·.e)
+          let flatS := (o.tree.flatMap (·.phones)).flatMap (·.states)
+          let same := JsonObs.spans flatW == JsonObs.spans r.cW.toList && JsonObs.spans flatP == JsonObs.spans r.cP.toList
+              && (!lvl2 || JsonObs.spans flatS == JsonObs.spans r.cS.toList)
+          let names := o.wNames == r.nW.toList.map (·.toUTF8.toList) && o.pNames == r.nP.toList.map (·.toUTF8.toList)
+              && (!lvl2 || o.sNames == r.nS.toList.map (·.toUTF8.toList))
+          let tok := JsonObs.timeOKB lvl2 T o.tree
+          out.putStrLn s!"JS {k} level={lvl} null=0 parse=1 clock={b (JsonObs.clockOK c)} tree=1 top={o.top} same={b same} names={b names} timeOK={b tok} nW={flatW.length} nP={flatP.length} nS={flatS.length}"
   if !r.bad.isEmpty then out.putStrLn ("BAD " ++ " ".intercalate r.bad)
   out.putStrLn "ENDREQ"
 
